@@ -8,7 +8,7 @@ import z3
 from .sx_base import (BreakSig, ContinueSig, GenError, PathEnd, RaiseSig, ReturnSig)
 from .sx_expr import is_const
 from .values import (Sym, VCtxMgr, VExc, VFunc, VList, VObj, VOpaque, VOpt, VRefMap, VSet, exc_isinstance)
-from .theory import Ref, Int as _Int
+from .theory import NONE_REF, Ref, Int as _Int
 
 MUTATORS = {"append", "extend", "insert", "pop", "remove", "clear", "update", "add", "discard",
             "setdefault", "sort", "reverse"}
@@ -192,6 +192,9 @@ class StmtMixin:
             base.fields[attr] = v
             return
         if isinstance(base, Sym) and base.k == "ref":
+            if base.nullable:
+                self.prove("noraise", "not_none@store ." + attr, base.t != NONE_REF, src=attr)
+                self.pc.append(base.t != NONE_REF)
             return self.unit.ref_setattr(self, base, attr, v)
         if isinstance(base, VOpt):
             self.deref(base, "setattr")
@@ -574,6 +577,7 @@ class StmtMixin:
         self.log.append(("LOOP", {"idx": idx, "mode": mode}, None))
         self.iter_log_start = len(self.log)
         self.iter_envs = self.snapshot_envs()
+        self.iter_heap = dict(self.heap)
         if mode == 0:
             self.pc.append(i.t < n)
             self.bind_target(s.target, mapper(i, self.list_get(it_snapshot, i.t)))
